@@ -300,6 +300,8 @@ def decode_conll(text):
             continue
         if not line.strip():
             continue
+        if line.startswith('#'):
+            continue          # any other comment line (CoNLL-U convention); token rows start with the word index
         f = line.split('\t')
         if len(f) != 10:
             raise DecodeError(f'{len(f)} columns')
@@ -496,10 +498,14 @@ def decode_deriv(block):
 # ---------------------------------------------------------------- HTML / MathML
 def decode_html(text):
     """-> list of (sentence id, words line, [ (logprob text, proj) ])"""
-    body = text[text.index('<body>') + 6:text.index('</body>')]
+    mb = re.search(r'<body[^>]*>(.*)</body>', text, re.S)
+    if not mb:
+        raise DecodeError('no body element')
+    body = mb.group(1)
     out = []
     pos = 0
-    pat = re.compile(r'<p>ID=(\d+): (.*?)</p>|<p>Log prob=(.*?)</p>|<math xmlns="http://www.w3.org/1998/Math/MathML">(.*?)</math>', re.S)
+    # paragraphs and math elements may carry attributes (styling is not part of the derivation)
+    pat = re.compile(r'<p[^>]*>ID=(\d+): (.*?)</p>|<p[^>]*>Log prob=(.*?)</p>|<math[^>]*>(.*?)</math>', re.S)
     cur = None
     lp = None
     for m in pat.finditer(body):
